@@ -31,6 +31,8 @@ def explore(ctx, run_one, args, bound, max_execs=None, label="", choice_kinds=No
         "obs": set(),
         "end": set(),
         "per_bound": [0] * (bound + 1),
+        "samples": [],
+        "args": args,
     }
     buckets = {d: [] for d in range(bound + 1)}
     buckets[0].append(())
@@ -59,6 +61,10 @@ def explore(ctx, run_one, args, bound, max_execs=None, label="", choice_kinds=No
                 stats["max_trace"] = max(stats["max_trace"], len(trace))
                 stats["obs"].add(res.get("obs"))
                 stats["end"].add(res.get("end"))
+                if len(stats["samples"]) < 2 or (d > 0 and len(stats["samples"]) < 4 and all(s_["deviations"] == [] for s_ in stats["samples"][1:])):
+                    stats["samples"].append({"plan": label or repr(args)[:120],
+                                             "deviations": [[i, k, c] for i, (k, n, c) in enumerate(trace) if c],
+                                             "choice_points": len(trace), "verdict": "violation" if res.get("violations") else "ok"})
                 if res.get("violations"):
                     found_here += len(res["violations"])
                     ctx.merge_violations(res["violations"])
@@ -107,3 +113,5 @@ def fold_stats(ctx, stats, prefix=""):
     ctx.set(prefix + "executions_per_bound", stats["per_bound"])
     ctx.set(prefix + "distinct_observations", len(stats["obs"]))
     ctx.set(prefix + "distinct_end_states", len(stats["end"]))
+    for smp in stats.get("samples", [])[-2:]:
+        ctx.sample({"explored_execution": smp})
